@@ -46,7 +46,7 @@ class C01(HistoryProperty):
     NONTRIVIAL_MEASURE = "history_with_hit"
 
     def gen_case(self, rng, tier):
-        cfg = gen.swarm_cfg(rng, on=("dsclass", "namespace"))
+        cfg = gen.swarm_cfg(rng, on=("dsclass", "namespace", "fapp"))
         cfg["namespace_keys"] = True
         cfg["user_evaluatables"] = rng.random() < 0.4  # user-defined Evaluatable subclasses in the place of plain Options
         cfg["labrea_keys"] = rng.random() < 0.4  # dictionaries that carry the reserved LABREA section (logging / effects switches)
